@@ -190,14 +190,21 @@ def seq_options(ftype, flops, rich):
             (False, "1", True, F["ignores"][min(2, len(F["ignores"]) - 1)])]
 
 
-def check_seq(acc, desc, ftype, flops, opts, n):
+def check_seq(acc, desc, ftype, flops, opts, n, repeat=False):
     import circuitgraph as cg
 
     add_out, init, rem_unl, ignore = opts
     F = FLOPS[ftype]
     case = {"kind": "seq", "desc": desc, "ftype": ftype, "flops": flops, "n": n,
-            "opts": [add_out, init, rem_unl, ignore]}
+            "opts": [add_out, init, rem_unl, ignore], "repeat": repeat}
     c = space.build(desc)
+    if repeat:
+        # an earlier call on the SAME circuit object (and the same BlackBox objects) must not matter
+        try:
+            cg.tx.sequential_unroll(c, 1, F["d"], F["q"])
+        except Exception as e:  # noqa: BLE001
+            acc.violation("seq", f"first-call-raises:{common.exc_name(e)}", case, repr(e))
+            return None
     g = c.graph
     outs = sorted(n_ for n_ in g.nodes if g.nodes[n_].get("output"))
     data_ins = sorted(i for i in c.inputs() if not i.endswith("_net"))
@@ -326,6 +333,9 @@ def run_seq(job, acc):
                 acc.states += 1
                 if r:
                     acc.nontrivial += 1
+                if rich and n == 2:
+                    acc.states += 1
+                    check_seq(acc, desc, ftype, flops, opts, n, repeat=True)
         acc.sample({"desc": desc, "ftype": ftype})
         if acc.out_of_time():
             break
@@ -345,5 +355,5 @@ def replay(case, job):
         check_unroll(acc, case["desc"], case["state_io"], case["n"])
     else:
         o = case["opts"]
-        check_seq(acc, case["desc"], case["ftype"], case["flops"], (o[0], o[1], o[2], o[3]), case["n"])
+        check_seq(acc, case["desc"], case["ftype"], case["flops"], (o[0], o[1], o[2], o[3]), case["n"], repeat=case.get("repeat", False))
     return acc.result()
